@@ -70,7 +70,16 @@ def window_rules(ctx, f, watched, thr="this->threshold_", who=""):
               "window condition is '%s > threshold' (strict)" % watched,
               "no branch on '%s > %s' (strict): found %s" % (watched, thr, sorted(k for k in keys if isinstance(k, str) and "threshold_" in k)))
     hw = field_writes(f, "hit_thres_at_")
-    resets = [w for w in hw if f.text(write_rhs(f, w)).endswith("time_point()")]
+    # a named epoch: `const steady_clock::time_point never_hit{};` - a time_point local that is default-constructed and never written
+    epoch_names = set()
+    for d_ in f.all("decl"):
+        for v_ in f.nodes[d_].get("vars", []):
+            if "time_point" in (v_.get("type") or "") and v_.get("init") is not None and v_.get("init", -1) >= 0 and not local_writes(f, v_["name"], must=False):
+                in_ = f.nodes[f.strip(v_["init"])]
+                if f.text(v_["init"]).endswith("time_point()") or (in_["k"] == "construct" and not in_.get("args")):
+                    epoch_names.add(v_["name"])
+    is_epoch = lambda t_: t_.endswith("time_point()") or t_ in epoch_names
+    resets = [w for w in hw if is_epoch(f.text(write_rhs(f, w)))]
     arms = [w for w in hw if w not in resets]
     ctx.count("window_writes", len(hw))
     for w in resets:
@@ -79,7 +88,8 @@ def window_rules(ctx, f, watched, thr="this->threshold_", who=""):
                   "hit_thres_at_ is reset under %s" % sorted(g, key=str))
     for w in arms:
         g = fl.guards(w)
-        armed_guard = any(p is True and re.match(r"^\((this->hit_thres_at_ == .*time_point\(\)|.*time_point\(\) == this->hit_thres_at_)\)$", k) for k, p in g)
+        armed_guard = any(p is True and (re.match(r"^\((this->hit_thres_at_ == .*time_point\(\)|.*time_point\(\) == this->hit_thres_at_)\)$", k) or
+                                         any(k in ("(this->hit_thres_at_ == %s)" % e_, "(%s == this->hit_thres_at_)" % e_) for e_ in epoch_names)) for k, p in g if isinstance(k, str))
         ctx.check((key, True) in g and armed_guard and f.text(write_rhs(f, w)) == NOW, who + ":arm-once-with-now", "guarded_by", f.loc(w),
                   "start time is set to this tick's clock reading only when exceeding and not yet armed", "hit_thres_at_ written with '%s' under %s" % (f.text(write_rhs(f, w)), sorted(g, key=str)))
     # every path that took the not-exceeding edge resets before leaving
